@@ -18,6 +18,7 @@ import glob
 import hashlib
 import os
 import re
+import shutil
 
 from vlib import common as C
 
@@ -35,9 +36,28 @@ def harness_sources():
 
 
 def build(cap=None):
-    """cap=None: the repository's CONFIG_MAX_WRITE_BUFFER_SIZE; otherwise the size is overridden at compile time."""
+    """cap=None: the repository's CONFIG_MAX_WRITE_BUFFER_SIZE; otherwise the size is overridden at compile time.
+    The binary is copied to a private directory of this run: the shared build cache is pruned by other checks
+    running at the same time."""
     name = "bufwrite" if cap is None else "bufwrite_cap%d" % cap
-    return C.cc_build(name, harness_sources(), link_flags=LINK, defines=([] if cap is None else ["BW_CAP=%d" % cap]))
+    priv = os.path.join(C.WORK, "c10run", str(os.getpid()))
+    dst = os.path.join(priv, name)
+    if os.path.exists(dst):
+        return dst
+    for attempt in range(3):
+        src = C.cc_build(name, harness_sources(), link_flags=LINK, defines=([] if cap is None else ["BW_CAP=%d" % cap]))
+        try:
+            os.makedirs(priv, exist_ok=True)
+            shutil.copy2(src, dst + ".tmp")
+            os.replace(dst + ".tmp", dst)
+            return dst
+        except OSError:
+            continue
+    raise C.BuildError("harness binary %s disappeared from the build cache three times" % name)
+
+
+def cleanup_private():
+    shutil.rmtree(os.path.join(C.WORK, "c10run", str(os.getpid())), ignore_errors=True)
 
 
 # --------------------------------------------------------------------------- running scripts
@@ -132,6 +152,7 @@ def monitor(script, lines, cap):
     stream = b""          # concatenation of the frames whose writev reported success
     pending = b""
     dead = False
+    why = ""
     for i, (opl, ol) in enumerate(zip(ops, obs)):
         mm = OBS.match(ol)
         if not mm:
@@ -150,11 +171,15 @@ def monitor(script, lines, cap):
                 fails.append("op %d send_buffer_terminates: %d kernel calls for %d bytes" % (i, calls, bound))
         if dead:
             if outb or calls:
-                fails.append("op %d written_after_dead: out=%s calls=%d" % (i, hx(outb), calls))
+                fails.append("op %d refusal_is_clean/dead_is_final: kernel used again (out=%s calls=%d) after %s"
+                             % (i, hx(outb), calls, why))
             if kind == "writev" and rc == 0:
-                fails.append("op %d success_after_dead" % i)
-            if kind == "writable" and err == 0:
-                fails.append("op %d dead_not_reported_on_writable" % i)
+                fails.append("op %d refusal_is_clean/dead_is_final: writev succeeded after %s" % (i, why))
+            if kind == "writable":
+                if err == 0:
+                    fails.append("op %d dead connection not reported to the owner on writability (%s)" % (i, why))
+                else:
+                    break  # the owner was told and closes the connection: later ops are outside the property
             accepted += outb
             pending = pend
             continue
@@ -164,22 +189,24 @@ def monitor(script, lines, cap):
                 stream += frame
                 if accepted + pend != stream:
                     fails.append("op %d stream_integrity: kernel+pending != completed frames" % i)
-                    dead = True  # do not cascade
+                    return fails  # do not cascade
             else:
                 if accepted + pend == stream:
                     pass  # clean refusal: nothing of the frame queued or sent
                 else:
                     dead = True  # only sound if the connection is now dead: checked on every later op
+                    why = "op %d refused a frame (rc=%d) but left %d byte(s) of it sent/queued" % (
+                        i, rc, len(accepted) + len(pend) - len(stream))
                     if not (stream + frame).startswith(accepted):
                         fails.append("op %d torn_frame_is_last: kernel stream is not a prefix of completed+this frame" % i)
         else:
             if err > 0:
-                dead = True  # owner was told: connection closed
                 if not stream.startswith(accepted):
                     fails.append("op %d flush_error: kernel stream is not a prefix of completed frames" % i)
+                break  # error callback: the owner closes the connection; later ops are outside the property
             elif accepted + pend != stream:
                 fails.append("op %d stream_integrity (flush): kernel+pending != completed frames" % i)
-                dead = True
+                return fails
         pending = pend
     return fails
 
@@ -545,6 +572,17 @@ def load_corpus():
 
 
 def run(ctx, out):
+    base = os.path.join(C.WORK, "c10run")
+    for d in (os.listdir(base) if os.path.isdir(base) else []):   # leftovers of killed runs
+        if d.isdigit() and not os.path.exists("/proc/" + d):
+            shutil.rmtree(os.path.join(base, d), ignore_errors=True)
+    try:
+        run_inner(ctx, out)
+    finally:
+        cleanup_private()
+
+
+def run_inner(ctx, out):
     out.assumptions += [
         "kernel contract for termination only: a successful writev of m>0 requested bytes returns 1..m",
         "the kernel is the scripted stub behind --wrap=writev (real posix/socket.c gathers the iovec)",
@@ -613,7 +651,7 @@ def run(ctx, out):
         ecap, shapes, tails = QUICK_CAP, SHAPES_QUICK, TAILS_QUICK
     tasks = [(ecap, L, sh, tails, bins[ecap]) for L in range(0, ecap + 1) for sh in shapes]
     # 3. seeded random histories
-    n_small, n_real = (60000, 12000) if ctx.thorough else (6000, 1500)
+    n_small, n_real = (200000, 30000) if ctx.thorough else (20000, 3000)
     step = 500
     rtasks = [(SMALL_CAP, lo, min(lo + step, n_small), bins[SMALL_CAP], False) for lo in range(0, n_small, step)]
     rtasks += [(dcap, lo, min(lo + 100, n_real), bins[dcap], True) for lo in range(0, n_real, 100)]
@@ -623,8 +661,16 @@ def run(ctx, out):
         for fu, fam in futs:
             absorb(fu.result(), fam)
 
+    seen = set()
     for fam, p in problems[:6]:
+        n = len(out.violations)
         report_problem(out, ctx, p, fam)
+        # the same shrunk replay found from several cells is reported once
+        if len(out.violations) > n:
+            key = out.violations[-1]["replay"]
+            if key in seen:
+                out.violations.pop()
+            seen.add(key)
     if len(problems) > 6:
         out.notes.append("%d further problem scenarios not individually reported" % (len(problems) - 6))
 
